@@ -162,7 +162,12 @@ func (v *Value) Integer() int {
 		return floatToInt(v.getResolvedValue().Float())
 	case reflect.String:
 		// Try to convert from string to int (base 10)
-		f, err := strconv.ParseFloat(v.getResolvedValue().String(), 64)
+		// (an integer is read as one: through a float64 only 53 bits of it survive)
+		s := v.getResolvedValue().String()
+		if i, err := strconv.ParseInt(s, 10, strconv.IntSize); err == nil {
+			return int(i)
+		}
+		f, err := strconv.ParseFloat(s, 64)
 		if err != nil {
 			return 0
 		}
